@@ -1166,7 +1166,18 @@ func (m *ExpirationManager) RevokeByToken(ctx context.Context, te *logical.Token
 
 	// Revoke all the keys by marking them expired
 	for _, leaseID := range existing {
-		err := m.lazyRevokeInternal(ctx, leaseID)
+		// A lease lives in the namespace of the request that created it,
+		// which need not be the token's own (a token may be used in child
+		// namespaces), so resolve it from the lease ID.
+		leaseNS, err := m.getNamespaceFromLeaseID(ctx, leaseID)
+		if err != nil {
+			if errors.Is(err, namespace.ErrNoNamespace) {
+				// The namespace is gone, and its leases with it.
+				continue
+			}
+			return err
+		}
+		err = m.lazyRevokeInternal(namespace.ContextWithNamespace(ctx, leaseNS), leaseID)
 		if err != nil {
 			return err
 		}
